@@ -619,3 +619,20 @@ PROPS["C06"]["level_text"] += (
     "static_param_tween_not_in_real_time): a static sound's volume / panning tweens advance with the real time of every "
     "callback - playing, fading, paused, waiting to resume, waiting for a delayed start - so that after a resume the value is "
     "where the closed form says")
+# C05 ("anything scheduled for a clock time … is cancelled if the clock no longer exists"): suite clocksys also pauses
+# silent sounds and empty sub-tracks and resumes them at a clock time (resume_at), dropping the clock's handle before /
+# after the audio thread has read the resume; the handles must report Stopped (sound, then unloaded) / Paused (track):
+# oracles missing_clock_cancels_resume, cancelled_sound_not_unloaded, resume_at_clock_time_fires, resume_waits_for_clock_time.
+PROPS["C05"]["level_text"] += (
+    "; suite clocksys also drives pause -> resume_at(ClockTime) -> clock dropped (before / after the resume is read) on real "
+    "sounds and sub-tracks through the public API: the twin (SoundCore / Psm life cycles fed with the system model's Info) "
+    "agrees on every handle state, and the oracle missing_clock_cancels_resume states the clause on the handles (sound: Stopped "
+    "and unloaded by the next callback; track: stays Paused and can be resumed)")
+# C08 (exact capacity accounting "for every resource kind"): suite life builds sub-tracks OF sub-tracks, plain and spatial,
+# at any depth, every one with its own sound capacity and sub-track capacity (distinct values, 0 and 1 included), and checks
+# the limit-iff-full / exact-count / reported-capacity clauses on each storage.
+PROPS["C08"]["level_text"] += (
+    "; suite life also builds sub-tracks of (plain and spatial) sub-tracks at any depth, each with its own, mostly different, "
+    "sound_capacity / sub_track_capacity (0 and 1 included): creation succeeds iff fewer than capacity are alive or awaiting "
+    "removal in THAT storage, num_sounds() / num_sub_tracks() / sound_capacity() / sub_track_capacity() report the right "
+    "numbers (oracles limit_iff_full, count_exact, count_le_capacity, capacity_reported)")
